@@ -173,7 +173,8 @@ class Ctx(t.NamedTuple):
     def scale(self, quick: int, thorough: int) -> int:
         """Total case budget for this tier divided over the shards."""
         total = thorough if self.thorough else quick
-        return max(1, total // self.nshards)
+        div = int(os.environ.get("VERIF_BUDGET_DIV", "1") or 1)  # used only by the seeded-change matrix (tools/matrix_run.sh)
+        return max(1, total // max(1, div) // self.nshards)
 
 
 def to_tuple(o: t.Any) -> t.Any:
